@@ -82,6 +82,15 @@ func drawInner(sim *simrt.Sim) {
 	if sim.InnerG > 0 {
 		sim.StallMax = []int{0, 8, 32, 128}[sim.Sched.Draw(4)]
 	}
+	// One run in five pre-empts only right after atomic operations (and
+	// sync.Map operations), and then often: the window of a check-then-act on
+	// an atomic is one expression wide, and statement-level gaps rarely land
+	// in it. Inert for a library without such operations.
+	if sim.Sched.Draw(5) == 4 {
+		sim.InnerSyncOnly = true
+		sim.InnerG = []int{2, 3, 6}[sim.Sched.Draw(3)]
+		sim.StallMax = []int{0, 8, 32, 128}[sim.Sched.Draw(4)]
+	}
 }
 
 // drawClock draws the behaviour of the simulated clock (schedule stream). It
@@ -233,8 +242,40 @@ type useOp struct {
 	a, b, c uint64
 }
 
-func drawUse(prog *simrt.Stream) useOp {
-	return useOp{kind: prog.Draw(numUse), a: uint64(prog.Draw(1 << 16)), b: uint64(prog.Draw(1 << 16)), c: uint64(prog.Draw(1 << 16))}
+// drawMask is swarm testing's "vary the workload mix per run": a third of the
+// runs use every kind of operation, a third a drawn subset (about half of the
+// kinds), a third the intersection of two subsets (about a quarter). A flaw
+// that needs the same two or three kinds of operation to meet on one buffer
+// is far more likely to be hit when few kinds are in play.
+func drawMask(prog *simrt.Stream, n int) uint32 {
+	all := uint32(1)<<uint(n) - 1
+	var m uint32
+	switch prog.Draw(3) {
+	case 0:
+		return all
+	case 1:
+		m = uint32(prog.Draw(int(all) + 1))
+	default:
+		m = uint32(prog.Draw(int(all)+1)) & uint32(prog.Draw(int(all)+1))
+	}
+	if m == 0 {
+		return all
+	}
+	return m
+}
+
+// maskedKind maps a drawn kind to the next kind the run's mask enables.
+func maskedKind(k, n int, mask uint32) int {
+	for i := 0; i < n; i++ {
+		if j := (k + i) % n; mask>>uint(j)&1 == 1 {
+			return j
+		}
+	}
+	return k
+}
+
+func drawUse(prog *simrt.Stream, mask uint32) useOp {
+	return useOp{kind: maskedKind(prog.Draw(numUse), numUse, mask), a: uint64(prog.Draw(1 << 16)), b: uint64(prog.Draw(1 << 16)), c: uint64(prog.Draw(1 << 16))}
 }
 
 // hist records what has been done to a buffer since it was obtained.
